@@ -195,6 +195,23 @@ func endToEnd(c *mon.Ctx, r *gen.Rand) {
 	if h.PTSDTS == 3 && (!ph.HasDTS() || ph.DTS() != h.DTS) {
 		c.Fail("e2e:pes-dts", fmt.Sprintf("PES DTS read back %d, carried %d", ph.DTS(), h.DTS), wit{Op: "DTS", Value: h.DTS, Got: mon.Hex(hb)})
 	}
+	// a second header decoded from its own buffer which is re-used before the first query
+	hb3 := append([]byte{}, hb...)
+	if ph3, err := pes.NewPESHeader(hb3); err == nil {
+		for i := range hb3 {
+			hb3[i] ^= 0x3c
+		}
+		if !ph3.HasPTS() || ph3.PTS() != h.PTS || (h.PTSDTS == 3 && ph3.DTS() != h.DTS) {
+			c.Fail("e2e:pes-times-follow-callers-buffer", fmt.Sprintf("the caller overwrote its buffer before the first query and the decoded header reports PTS %d / DTS %d instead of %d / %d", ph3.PTS(), ph3.DTS(), h.PTS, h.DTS), wit{Op: "PTS after buffer re-use", Value: h.PTS})
+		}
+	}
+	// the caller re-uses its buffer for the next packet: the values already decoded must not follow it
+	h2 := ref.PES{StreamID: 0xe0, PTSDTS: 3, PTS: r.U33(), DTS: r.U33(), Payload: r.Bytes(len(hb))}
+	nb, _ := h2.Bytes()
+	copy(hb, nb)
+	if !ph.HasPTS() || ph.PTS() != h.PTS || (h.PTSDTS == 3 && ph.DTS() != h.DTS) {
+		c.Fail("e2e:pes-times-follow-callers-buffer", fmt.Sprintf("after the caller overwrote its buffer the decoded header reports PTS %d / DTS %d instead of %d / %d", ph.PTS(), ph.DTS(), h.PTS, h.DTS), wit{Op: "PTS after buffer re-use", Value: h.PTS})
+	}
 	c.Class(fmt.Sprintf("e2e/pcr=%v/opcr=%v/ptsdts=%d/pcrclass=%s", withP, withO, h.PTSDTS, popclass(v>>36)))
 }
 
@@ -238,6 +255,9 @@ func run(c *mon.Ctx) {
 	c.Stream("decoder-agreement", c.N(2000, 3000000), func(i int, r *gen.Rand) {
 		for k := 0; k < 100; k++ {
 			b := r.Bytes(5)
+			if k%4 == 3 {
+				b = r.Bytes(5 + r.Intn(12)) // a longer slice: only the first five bytes are the field
+			}
 			a, d := gots.ExtractTime(b), pes.ExtractTime(b)
 			c.Eval(1)
 			if a != d || a != ref.DecPTS(b) {
